@@ -204,6 +204,56 @@ def etrsVerify (o : GrpOps P) (H : Bytes → Bytes) (n fcBytes : Nat) (g pp : P)
    !o.beq (interpolate o n zero base 0) pp) &&
   ring.all fun e => sokorVerify o H n fcBytes g g e.e.h e.e.pk msg e.e.c0 e.e.c1 e.e.r0 e.e.r1
 
+
+/-! ## pairing-based schemes, in the discrete-logarithm-oracle formulation
+
+For a non-degenerate bilinear map e : G1 × G2 → GT on groups of prime order n, e(A, [k]g) = e(B, g) ⟺ [k]A = B for any
+generator g of G2 (`Lemmas/Pairing.lean`; bilinearity and non-degeneracy of the implemented pairing are property C04).
+The public keys of these schemes are multiples [k]g2 of the G2 generator; when the specification is given k (the oracle
+line carries the secret key) every verification equation becomes an equation in G1, decided with the curve arithmetic. -/
+
+/-- the integer a scheme derives from the message: `hashed` = the message already is a digest -/
+def msgScalar (H : Bytes → Bytes) (n : Nat) (hashed : Bool) (msg : Bytes) : Nat :=
+  (if hashed then os2ip msg else os2ip (H msg)) % n
+
+/-- BLS: e(H(m), [d]g2) = e(σ, g2), public key valid (d ≢ 0) ⟺ σ = [d]H(m) -/
+def blsVerifyDL (o : GrpOps P) (n : Nat) (hm sigma : P) (d : Nat) : Bool :=
+  o.valid sigma && decide (d % n ≠ 0) && o.beq sigma (o.smul (d % n) hm)
+
+/-- Boneh–Boyen: e(σ, [m]g2 + [d]g2) = e(g1, g2) ⟺ [m + d]σ = g1 -/
+def bbsVerifyDL (o : GrpOps P) (n : Nat) (g1 sigma : P) (m d : Nat) : Bool :=
+  o.pub sigma && decide (d % n ≠ 0) && o.beq (o.smul ((m + d) % n) sigma) g1
+
+/-- Zhang–Safavi-Naini–Susilo: e([m]g1 + Q, σ) = e(g1, g2) with σ = [t]g2 ⟺ [t]([m]g1 + Q) = g1 -/
+def zssVerifyDL (o : GrpOps P) (n : Nat) (g1 q : P) (m t : Nat) : Bool :=
+  o.pub q && decide (t % n ≠ 0) && o.beq (o.smul (t % n) (o.add (o.smul m g1) q)) g1
+
+/-- Camenisch–Lysyanskaya, scheme A: e(a, Y) = e(b, g2) ∧ e(a + [m]b, X) = e(c, g2) with X = [x]g2, Y = [y]g2 -/
+def clsVerifyDL (o : GrpOps P) (n : Nat) (a b c : P) (m x y : Nat) : Bool :=
+  o.pub a && o.pub b && o.pub c && decide (x % n ≠ 0 ∧ y % n ≠ 0) &&
+  o.beq b (o.smul (y % n) a) && o.beq c (o.smul (x % n) (o.add a (o.smul m b)))
+
+/-- scheme C (signature on a committed message with randomness r): X = [t]g2, Y = [u]g2, Z = [v]g2 -/
+def cliVerifyDL (o : GrpOps P) (n : Nat) (a A b B c : P) (m r t u v : Nat) : Bool :=
+  o.pub a && o.pub A && o.pub b && o.pub B && o.pub c && decide (t % n ≠ 0 ∧ u % n ≠ 0 ∧ v % n ≠ 0) &&
+  o.beq A (o.smul (v % n) a) && o.beq b (o.smul (u % n) a) && o.beq B (o.smul (u % n) A) &&
+  o.beq c (o.smul (t % n) (o.add (o.add a (o.smul m b)) (o.smul (r % n) B)))
+
+/-- scheme for blocks of messages m₀ … m_{l−1}: Zᵢ = [vᵢ]g2 for i < l − 1 -/
+def clbVerifyDL (o : GrpOps P) (n : Nat) (a b c : P) (As Bs : List P) (ms : List Nat) (t u : Nat) (vs : List Nat) : Bool :=
+  o.pub a && o.pub b && o.pub c && As.all o.pub && Bs.all o.pub &&
+  decide (t % n ≠ 0 ∧ u % n ≠ 0) && vs.all (fun v => decide (v % n ≠ 0)) &&
+  As.length == vs.length && Bs.length == vs.length && ms.length == vs.length + 1 &&
+  (List.zip As vs).all (fun (A, v) => o.beq A (o.smul (v % n) a)) &&
+  o.beq b (o.smul (u % n) a) &&
+  (List.zip As Bs).all (fun (A, B) => o.beq B (o.smul (u % n) A)) &&
+  o.beq c (o.smul (t % n) ((List.zip (ms.drop 1) Bs).foldl (fun acc (m, B) => o.add acc (o.smul m B)) (o.add a (o.smul (ms.headD 0) b))))
+
+/-- Pointcheval–Sanders: e(a, x + Σ[mᵢ]yᵢ) = e(b, g) with x = [r]g, yᵢ = [sᵢ]g for a generator g of G2 ⟺ b = [r + Σ mᵢsᵢ]a, a ≠ O -/
+def psVerifyDL (o : GrpOps P) (n : Nat) (a b : P) (ms : List Int) (r : Nat) (ss : List Nat) : Bool :=
+  o.pub a && o.valid b && ms.length == ss.length &&
+  o.beq b (o.smul (((List.zip ms ss).foldl (fun acc (m, s) => (acc + (m % (n : Int)).toNat * s) % n) (r % n))) a)
+
 /-! ## RSA (RFC 8017) -/
 
 structure RsaPub where
